@@ -4,6 +4,7 @@ import (
 	"errors"
 	"fmt"
 	"io"
+	"io/ioutil"
 	"os"
 	"path/filepath"
 	"sort"
@@ -435,6 +436,14 @@ func (f *File) Close() error {
 	return nil
 }
 
+// Chmod mirrors (*os.File).Chmod.
+func (f *File) Chmod(mode os.FileMode) error {
+	if f.real != nil {
+		return f.real.Chmod(mode)
+	}
+	return nil
+}
+
 // Sync mirrors (*os.File).Sync.
 func (f *File) Sync() error {
 	if f.real != nil {
@@ -560,6 +569,62 @@ func OpenFile(name string, flag int, perm os.FileMode) (*File, error) {
 	}
 	W.Event("openfile %s flag=%#x", name, flag)
 	return &File{name: name, node: node, wr: &Sink{Name: name, Faults: d.WritePlan[name]}, app: flag&os.O_APPEND != 0}, nil
+}
+
+var tempSeq int
+
+// CreateTemp replaces os.CreateTemp / ioutil.TempFile on the simulated disk.
+func CreateTemp(dir, pattern string) (*File, error) {
+	if W == nil {
+		f, err := ioutil.TempFile(dir, pattern)
+		if err != nil {
+			return nil, err
+		}
+		return &File{real: f}, nil
+	}
+	tempSeq++
+	name := pattern
+	if i := strings.LastIndex(pattern, "*"); i >= 0 {
+		name = pattern[:i] + fmt.Sprintf("%06d", tempSeq) + pattern[i+1:]
+	} else {
+		name = pattern + fmt.Sprintf("%06d", tempSeq)
+	}
+	if dir != "" {
+		name = filepath.Join(dir, name)
+	}
+	return Create(name)
+}
+
+// Chmod, MkdirAll, Mkdir replace their os namesakes (no-ops on the simulated disk).
+func Chmod(name string, mode os.FileMode) error {
+	if W == nil {
+		return os.Chmod(name, mode)
+	}
+	return nil
+}
+
+// MkdirAll is a no-op on the flat simulated disk.
+func MkdirAll(path string, perm os.FileMode) error {
+	if W == nil {
+		return os.MkdirAll(path, perm)
+	}
+	return nil
+}
+
+// Mkdir is a no-op on the flat simulated disk.
+func Mkdir(path string, perm os.FileMode) error {
+	if W == nil {
+		return os.Mkdir(path, perm)
+	}
+	return nil
+}
+
+// TempDir replaces os.TempDir.
+func TempDir() string {
+	if W == nil {
+		return os.TempDir()
+	}
+	return "/simtmp"
 }
 
 // Stat replaces os.Stat / os.Lstat.
